@@ -428,7 +428,41 @@ def new_obs():
     return {'put': [], 'written': [], 'chron': [], 'drawn': [], 'told': [], 'reply': [], 'wid': 0, 'write_after_close': 0, 'raised': [], 'faulted': False}
 
 
+SAME = {'t0.a': 't0.x', 't1.b': 't1.x', 't2.c': 't2.x', 't3.d': 't3.x'}
+
+
+def deep_sub(x, m):
+    if isinstance(x, dict):
+        return {deep_sub(k, m): deep_sub(v, m) for k, v in x.items()}
+    if isinstance(x, (list, tuple)):
+        return [deep_sub(v, m) for v in x]
+    if isinstance(x, str):
+        for a, b in m.items():
+            if a in x:
+                x = x.replace(a, b)
+    return x
+
+
 def run_job(job):
+    if job.get('same_names'):
+        # algorithm names are unique within a task only: every algorithm of this history is called `x` (t0.x, t1.x, ...);
+        # the record is translated back to the names of the model
+        j2 = deep_sub({k: v for k, v in job.items() if k not in ('same_names', 'desc')}, SAME)
+        desc = json.loads(json.dumps(job['desc']))
+        for p in desc['pkgs']:
+            for a in p['algs']:
+                a['name'] = 'x'
+                for r in a.get('refs', []) + a.get('feedback', []):
+                    r['alg'] = 'x'
+        j2['desc'] = desc
+        res = run_job_named(j2)
+        res = deep_sub(res, {b: a for a, b in SAME.items()})
+        res['prog'] = prog_view(job['desc'])
+        return res
+    return run_job_named(job)
+
+
+def run_job_named(job):
     w = World(job['desc'], job['targets'])
     steps = []
     try:
